@@ -58,7 +58,7 @@ def run(tier="quick", seed=0, replay=None):
                    n_inner=chk.rng.randint(1, 2), model_kind=chk.rng.choice(["scalar", "grow"]), names_kind=chk.rng.choice(["str", "mixed"]),
                    storage_kind="geom", storage_size=2, imputer_kind="joint", loss_kind="arbitrary", lbb=False)
         sd = chk.rng.randrange(10 ** 9)
-        upd = [True, True, chk.rng.random() < 0.8, True]
+        upd = [True, chk.rng.random() < 0.7, chk.rng.random() < 0.7, True]
         base = build(sd, cfg)
         run_stream(base, 4, set(), upd)
         total = base.calls
@@ -90,6 +90,10 @@ def run(tier="quick", seed=0, replay=None):
                                       f"{changed} changed: before {[before[k] for k in changed]} after {[rec['est'][k] for k in changed]}",
                                       dict(desc, call=t + 1))
                         break
+                elif rec["error"] is None and rec.get("fault_raised"):
+                    chk.violation(f"swallowed:{kind}", f"{kind} {_expl.cfg_desc(cfg)}: the callback at invocation {sorted(fs)} raised during call {t + 1} but "
+                                  f"explain_one returned normally (the exception did not propagate) with estimates {rec['est']}", dict(desc, call=t + 1))
+                    break
                 elif rec["error"] is not None:
                     chk.violation(f"exception:{kind}", f"{kind} {_expl.cfg_desc(cfg)} faults {sorted(fs)}: call {t + 1} raised "
                                   f"{rec['error']}: {rec.get('error_text')} instead of propagating the callback's exception", dict(desc, call=t + 1))
@@ -128,7 +132,14 @@ def run(tier="quick", seed=0, replay=None):
                 elif rec["log"] != a["log"]:
                     diff = f"call log impl={rec['log']} model={a['log']}"
                 if diff:
-                    if ndis < 5:
+                    failed_before = [u for u, r in enumerate(rig.steps[:t]) if r["error"] == "fault"]
+                    if fs and failed_before and diff.startswith("estimates") and rec["error"] is None:
+                        # the run agreed with the model up to and including the failing call; after resuming it no longer does: the failed call
+                        # left a trace in state that is not visible in the reported estimates at once
+                        chk.violation("trace-after-resume", f"{rig.kind} {_expl.cfg_desc(cfg)}: after the failure at invocation {list(fs)} (call {failed_before[0] + 1}) was "
+                                      f"caught and the stream resumed, call {t + 1} reports {i_est} but a stream that never made the failed call gives {m_est}"[:1200],
+                                      {"config": _expl.cfg_desc(cfg), "faults": list(fs), "call": t + 1})
+                    elif ndis < 5:
                         ndis += 1
                         chk.tie_failure("correspondence:effectful", f"{_expl.cfg_desc(cfg)} faults={list(fs)} call {t + 1}: {diff}"[:900])
                     break
